@@ -41,6 +41,7 @@
 
 #include <cmath>
 #include <set>
+#include <sys/time.h>
 
 namespace ob = ompl::base;
 namespace oc = ompl::control;
@@ -539,6 +540,12 @@ namespace plan
         {
             return 1;
         }
+        // the one sample is available at once and no other will ever appear: a planner that waits for
+        // goal samples (PlannerInputStates::nextGoal sleeps 10 ms per attempt) must not wait here
+        bool couldSample() const override
+        {
+            return false;
+        }
 
     private:
         const System *sys_;
@@ -908,8 +915,24 @@ namespace plan
         return ev;
     }
 
+    // per-run watchdog on CPU time (never wall clock: the machine may be arbitrarily loaded)
+    static const int RUN_CPU_LIMIT_S = 300;
+    static void onCpuLimit(int)
+    {
+        vt::crashEvent("watchdog: one planner run used more than 300 s of CPU under an evaluation budget");
+        _exit(71);
+    }
+    static void armWatchdog(int seconds)
+    {
+        struct itimerval it;
+        memset(&it, 0, sizeof it);
+        it.it_value.tv_sec = seconds;
+        setitimer(ITIMER_PROF, &it, nullptr);
+    }
+
     static int record(const std::string &out, const std::string &specFile)
     {
+        signal(SIGPROF, onCpuLimit);
         ompl::msg::setLogLevel(ompl::msg::LOG_NONE);
         vt::Trace tr(out);
         std::ifstream in(specFile);
@@ -935,7 +958,9 @@ namespace plan
                 fprintf(stderr, "bad run line: %s\n", line.c_str());
                 return 3;
             }
+            armWatchdog(RUN_CPU_LIMIT_S);
             json ev = runOne(rs);
+            armWatchdog(0);
             ++byStatus[ev["status"].get<std::string>()];
             tr.emit(ev);
             tr.flush();
